@@ -1297,7 +1297,11 @@ class Builder(object):
                 index += 1
 
                 if connective == 'at':
-                    period = max(0.0, Convert2Num(tokens[index]))
+                    period = Convert2Num(tokens[index])
+                    if isinstance(period, complex):
+                        msg = "Error building %s. Bad period got %s." % (command, period)
+                        raise excepting.ParseError(msg, tokens, index)
+                    period = max(0.0, period)
                     index +=1
 
                 elif connective == 'be':
